@@ -60,6 +60,8 @@ fn pino_sol_log_data(data: &[&[u8]]) {
 
     #[cfg(not(target_os = "solana"))]
     core::hint::black_box(data);
+    #[cfg(all(feature = "verif", not(target_os = "solana")))]
+    crate::verif::log_data(data);
 }
 
 impl Event<'_> {
